@@ -23,6 +23,9 @@ CHECKS = {
  "C06": dict(cat="exploration", tech="trace monitor: deadline-window check of EXPRIED notices on a virtual clock + census",
     text="A hold whose terms were last set at tick g with expiry E must be ended at a tick in [g+E+1, g+E+2] (within +10 once a terms change shortened it; either window for an ignorable update), never when unlimited; the notice must arrive on the owner's connection, the hold must leave the census and waiters be served. Unlocks, re-locks and updates are injected at the sweeper-entry yield point. One genuine race was found and fixed.",
     note="Leader only; millisecond expiries not decided here.", ref="3/C06"),
+ "C16": dict(cat="fault_enumeration", tech="fault enumeration over crash images taken at the hook points of the log compaction (every file-system mutation, rotation close/open, end), compaction goroutine driven step by step and parked while operations continue; metamorphic oracle: state recovered from the image vs state recovered from the compaction's input files (+ current files), cross-checked with the running instance's own state",
+    text="96 (quick) / 6 000 (thorough) PRNG histories with a rotation threshold of 5-24 records, so that a compaction (inputs: rewrite file + 1-4 append files) runs every few operations, triggered by the threshold, by the admin path (RewriteAofFile under the log mutex, as BGREWRITEAOF) and at start-up. The compaction goroutine is released between two operations, a directory image is taken at every hook point it passes, and at a PRNG point it is parked while 0-4 further operations append to the current file, after which a second image is taken. Up to 48 images per history are recovered by fresh instances at the virtual time of the image and compared, hold by hold and value by value, with the recovery of the reference image; a difference counts unless the running instance's own state at that moment accounts for it. The expected crash-unsafe ordering (inputs removed before the rename; value file renamed after the record file) and two further defect classes are recorded as open known findings by crash point / record shape; other differences are violations.",
+    note="Copying the directory while the goroutine stands at a hook and no operation is in flight means an image never contains a torn write (C08). Differences between image and reference that the running instance's state explains are counted, not judged (replay is not an exact inverse of the history: C07's known findings).", ref="3/C16"),
  "C17": dict(cat="exploration", tech="invariant hooks: reply counts vs shadow, STATE counters vs census, reachability/refcount audit under the shard mutexes, zero-after-drain",
     text="LCount/LRCount of every reply and the STATE counters after every step are compared with the shadow and with a census walked under the code's own shard mutexes (holder lists, wait queues, all wheel slots, long tables, free pools, reference counts); after a drain phase everything must be zero and no finished record reachable. Server ERROR log lines (internal inconsistency reports) are captured and count as violations.",
     note="Counts are compared where they are determinate (sequential engine).", ref="3/C17"),
